@@ -1,5 +1,7 @@
 """Pool: compound fields, unions, sequences, wrappers, forward references."""
 from dataclasses import dataclass, field
+
+from sim.pool.base import StableHashMeta
 from decimal import Decimal
 from typing import Optional, Union
 
@@ -7,7 +9,7 @@ __NAMESPACE__ = "urn:c"
 
 
 @dataclass
-class Alpha:
+class Alpha(metaclass=StableHashMeta):
     class Meta:
         name = "alpha"
         namespace = "urn:c"
@@ -17,7 +19,7 @@ class Alpha:
 
 
 @dataclass
-class Bravo:
+class Bravo(metaclass=StableHashMeta):
     class Meta:
         name = "bravo"
         namespace = "urn:c"
@@ -27,7 +29,7 @@ class Bravo:
 
 
 @dataclass
-class Choice:
+class Choice(metaclass=StableHashMeta):
     class Meta:
         name = "choice"
         namespace = "urn:c"
@@ -47,7 +49,7 @@ class Choice:
 
 
 @dataclass
-class Prim:
+class Prim(metaclass=StableHashMeta):
     """Primitive unions and defaults."""
 
     class Meta:
@@ -60,7 +62,7 @@ class Prim:
 
 
 @dataclass
-class EitherWay:
+class EitherWay(metaclass=StableHashMeta):
     """Union of models: UnionNode replays the events for every candidate."""
 
     class Meta:
@@ -72,7 +74,7 @@ class EitherWay:
 
 
 @dataclass
-class Seq:
+class Seq(metaclass=StableHashMeta):
     class Meta:
         name = "seq"
         namespace = "urn:c"
@@ -83,7 +85,7 @@ class Seq:
 
 
 @dataclass
-class Wrapped:
+class Wrapped(metaclass=StableHashMeta):
     class Meta:
         name = "wrapped"
         namespace = "urn:c"
@@ -99,7 +101,7 @@ class Wrapped:
 
 
 @dataclass
-class Fwd:
+class Fwd(metaclass=StableHashMeta):
     """Forward reference resolvable from the module globals."""
 
     class Meta:
@@ -110,7 +112,7 @@ class Fwd:
 
 
 @dataclass
-class FwdTarget:
+class FwdTarget(metaclass=StableHashMeta):
     class Meta:
         name = "fwdTarget"
         namespace = "urn:c"
